@@ -97,6 +97,9 @@ struct R {
     session: Arc<RwLock<Session>>,
     state: Arc<RwLock<ServerState>>,
     svc: VNodeManagementService,
+    /// every id AddNodes answered Good with in this case (the only way nodes outside namespace 0
+    /// come to exist here); used to decide whether a returned id was a node BEFORE the request
+    known: std::collections::HashSet<NodeId>,
 }
 
 impl R {
@@ -133,6 +136,53 @@ impl R {
                 }
             }
         }
+    }
+
+    fn mk_addnode(&self, t: &[&str]) -> AddNodesItem {
+        let cls_n: u32 = t[5].parse().unwrap_or(0);
+        let attributes = match (cls_n, t[7] == "1") {
+            (2, true) | (1, false) => variable_attributes("v"),
+            (_, true) => object_attributes("o"),
+            (_, false) => ExtensionObject::null(),
+        };
+        AddNodesItem {
+            parent_node_id: ExpandedNodeId::from(self.nid(t[2].parse().unwrap_or(0))),
+            reference_type_id: self.opt_id(t[3]),
+            requested_new_node_id: ExpandedNodeId {
+                node_id: self.opt_id(t[0]),
+                namespace_uri: UAString::null(),
+                server_index: t[1].parse().unwrap_or(0),
+            },
+            browse_name: if t[4] == "-" { QualifiedName::null() } else { QualifiedName::new(0, format!("n{}", t[4]).as_str()) },
+            node_class: node_class(cls_n),
+            node_attributes: attributes,
+            type_definition: ExpandedNodeId::from(self.opt_id(t[6])),
+        }
+    }
+
+    fn mk_addref(&self, t: &[&str]) -> AddReferencesItem {
+        AddReferencesItem {
+            source_node_id: self.opt_id(t[0]),
+            reference_type_id: self.opt_id(t[4]),
+            is_forward: t[5] == "1",
+            target_server_uri: if t[3] == "1" { UAString::null() } else { UAString::from("urn:other") },
+            target_node_id: ExpandedNodeId { node_id: self.opt_id(t[1]), namespace_uri: UAString::null(), server_index: t[2].parse().unwrap_or(0) },
+            target_node_class: node_class(t[6].parse().unwrap_or(0)),
+        }
+    }
+
+    fn mk_delref(&self, t: &[&str]) -> DeleteReferencesItem {
+        DeleteReferencesItem {
+            source_node_id: self.opt_id(t[0]),
+            reference_type_id: self.opt_id(t[3]),
+            is_forward: t[4] == "1",
+            target_node_id: ExpandedNodeId { node_id: self.opt_id(t[1]), namespace_uri: UAString::null(), server_index: t[2].parse().unwrap_or(0) },
+            delete_bidirectional: t[5] == "1",
+        }
+    }
+
+    fn set_limit(&self, limit: usize) {
+        opcua::verif_hooks::aspace::set_max_nodes_per_node_management(&mut self.state.write(), limit);
     }
 
     fn observe(&self) -> Obs {
@@ -229,6 +279,41 @@ fn node_class(c: u32) -> NodeClass {
     }
 }
 
+/// Post-pass over one generated case: some runs of consecutive items of the same service become ONE
+/// request with several items, with the server's per-request limit set below / at / above the number
+/// of items; now and then a request with an empty or a missing item list is added.
+fn merge_into_requests(rng: &mut Rng, out: &mut Vec<String>, from: usize) {
+    let lines: Vec<String> = out.drain(from..).collect();
+    let kinds = ["addnode", "addref", "delnode", "delref"];
+    let mut i = 0;
+    while i < lines.len() {
+        let kind = lines[i].split(' ').next().unwrap_or("").to_string();
+        if kinds.contains(&kind.as_str()) && rng.chance(1, 5) {
+            let mut j = i;
+            while j < lines.len() && j - i < 4 && lines[j].starts_with(&format!("{} ", kind)) {
+                j += 1;
+            }
+            let m = rng.range(1, (j - i) as i64) as usize;
+            let limit = match rng.weighted(&[3, 3, 2, 2]) {
+                0 => 100,
+                1 => m,
+                2 => m + 1,
+                _ => m.saturating_sub(1).max(1),
+            };
+            let items: Vec<&str> = lines[i..i + m].iter().map(|l| l.split_once(' ').map_or("", |x| x.1)).collect();
+            out.push(format!("multi {} {} {} {}", kind, limit, m, items.join(" ")));
+            i += m;
+            continue;
+        }
+        if rng.chance(1, 40) {
+            let k = *rng.pick(&kinds);
+            out.push(format!("multi {} {} {}", k, rng.pick(&[1, 100]), if rng.chance(1, 2) { "null" } else { "0" }));
+        }
+        out.push(lines[i].clone());
+        i += 1;
+    }
+}
+
 impl Prop for C34 {
     fn id(&self) -> &'static str {
         "C34"
@@ -236,9 +321,10 @@ impl Prop for C34 {
 
     fn gen(&self, rng: &mut Rng, n: usize, tier: Tier, out: &mut Vec<String>) {
         let ref_types = ["35", "35", "47", "47", "46", "49", "40", "37"];
-        for _ in 0..n {
+        for case_no in 0..n {
             // 1 case in 15 without the right to modify, 1 in 12 on the complete standard nodeset
             let can = !rng.chance(1, 15);
+            let case_start = out.len();
             out.push(format!("reset {} {}", b(can), b(rng.chance(1, 12))));
             let len = rng.range(2, if tier == Tier::Thorough { 30 } else { 16 });
             let k = rng.range(3, 8) as u32; // ids 1000..1000+k are in play
@@ -253,8 +339,51 @@ impl Prop for C34 {
                     rng.pick(&ref_types).to_string()
                 }
             };
+            // Collision runs: `run` consecutive ids directly ahead of the id counter are taken by
+            // requested ids, then the server has to assign one.  Every length 0..=40 in turn (case
+            // number mod 41), and one long run of 100 and of 1000 per generated batch.
+            let run_len: Option<u32> = if !can {
+                None
+            } else if case_no == 7 {
+                Some(100)
+            } else if case_no == 23 {
+                Some(1000)
+            } else if case_no % 3 == 0 {
+                Some(((case_no / 3) % 41) as u32)
+            } else {
+                None
+            };
+            if let Some(run) = run_len {
+                // sometimes the counter has moved before the run is planted
+                if rng.chance(1, 3) {
+                    out.push("addnode - 0 85 35 9 1 58 1".to_string());
+                    made.push(ID_BASE + counter);
+                    counter += 1;
+                }
+                if run > 0 {
+                    out.push(format!("fill {} {}", ID_BASE + counter, run));
+                }
+                out.push(format!("addnode - 0 85 {} 8 {} {} 1", rng.pick(&["35", "47"]), 1 + rng.below(2), "58"));
+                // a variable needs the variable type
+                if out.last().unwrap().contains(" 8 2 58 ") {
+                    let l = out.pop().unwrap().replace(" 8 2 58 ", " 8 2 63 ");
+                    out.push(l);
+                }
+                for i in 0..run.min(N_REL) {
+                    made.push(ID_BASE + counter + i);
+                }
+                counter += run + 1;
+                if run <= 40 && rng.chance(1, 2) {
+                    // and once more right behind it
+                    out.push("addnode - 0 85 35 7 1 58 1".to_string());
+                    counter += 1;
+                }
+                if run > 40 {
+                    continue;
+                }
+            }
             // most cases start with a few nodes under the Objects folder
-            if can && rng.chance(4, 5) {
+            if can && run_len.is_none() && rng.chance(4, 5) {
                 for i in 0..rng.range(1, 3) as u32 {
                     let (req, cls, td) = if rng.chance(1, 2) { ("-".to_string(), 1, "58") } else { ((ID_BASE + counter + 1).to_string(), 2, "63") };
                     let id = if req == "-" {
@@ -368,6 +497,7 @@ impl Prop for C34 {
                     }
                 }
             }
+            merge_into_requests(rng, out, case_start + 1);
         }
     }
 
@@ -379,6 +509,7 @@ impl Prop for C34 {
             session: Arc::new(RwLock::new(Session::new(fx.server_state.clone()))),
             state: fx.server_state.clone(),
             svc: VNodeManagementService::new(),
+            known: Default::default(),
         })
     }
 }
@@ -394,6 +525,7 @@ impl Runner for R {
                 // as `set_server_state` does with the application uri: namespace 1 is registered, 2 is not
                 let _ = space.register_namespace("urn:verif-c34");
                 self.space = Arc::new(RwLock::new(space));
+                self.known.clear();
                 // the id counter is global to the process: ids are counted from its current value
                 self.base = match NodeId::next_numeric(1).identifier {
                     Identifier::Numeric(v) => v + 1,
@@ -401,8 +533,141 @@ impl Runner for R {
                 };
                 ("ok".to_string(), Verdict::Ok)
             }
+            ["multi", kind, limit, n, rest @ ..] => {
+                // one request with several items (or none / a missing list), with the server's
+                // max_nodes_per_node_management set to `limit` for this call
+                let Ok(limit) = limit.parse::<usize>() else { return ("bad-op".into(), Verdict::Ok) };
+                let arity = match *kind { "addnode" => 8, "addref" => 7, "delnode" => 2, "delref" => 6, _ => return ("bad-op".into(), Verdict::Ok) };
+                let count: Option<usize> = if *n == "null" { None } else { n.parse().ok() };
+                if *n != "null" && (count.is_none() || rest.len() != count.unwrap() * arity) {
+                    return ("bad-op".into(), Verdict::Ok);
+                }
+                let chunks: Vec<&[&str]> = rest.chunks(arity).collect();
+                let before = self.observe();
+                let pre_existing: std::collections::HashSet<NodeId> = {
+                    let a = self.space.read();
+                    self.known.iter().filter(|k| a.node_exists(k)).cloned().collect()
+                };
+                self.set_limit(limit);
+                let hdr = RequestHeader::dummy();
+                let resp = match *kind {
+                    "addnode" => self.svc.add_nodes(self.state.clone(), self.session.clone(), self.space.clone(),
+                        &AddNodesRequest { request_header: hdr, nodes_to_add: count.map(|_| chunks.iter().map(|c| self.mk_addnode(c)).collect()) }),
+                    "addref" => self.svc.add_references(self.state.clone(), self.session.clone(), self.space.clone(),
+                        &AddReferencesRequest { request_header: hdr, references_to_add: count.map(|_| chunks.iter().map(|c| self.mk_addref(c)).collect()) }),
+                    "delnode" => self.svc.delete_nodes(self.state.clone(), self.session.clone(), self.space.clone(),
+                        &DeleteNodesRequest { request_header: hdr, nodes_to_delete: count.map(|_| chunks.iter().map(|c| DeleteNodesItem { node_id: self.nid(c[0].parse().unwrap_or(0)), delete_target_references: c[1] == "1" }).collect()) }),
+                    _ => self.svc.delete_references(self.state.clone(), self.session.clone(), self.space.clone(),
+                        &DeleteReferencesRequest { request_header: hdr, references_to_delete: count.map(|_| chunks.iter().map(|c| self.mk_delref(c)).collect()) }),
+                };
+                self.set_limit(100);
+                let after = self.observe();
+                let class = format!("multi-{}", kind);
+                // (status, returned id) per item, or the service fault
+                let results: Result<Vec<(StatusCode, Option<NodeId>)>, StatusCode> = match resp {
+                    SupportedMessage::AddNodesResponse(r) => Ok(r.results.unwrap_or_default().iter().map(|x| (x.status_code, Some(x.added_node_id.clone()))).collect()),
+                    SupportedMessage::AddReferencesResponse(r) => Ok(r.results.unwrap_or_default().iter().map(|x| (*x, None)).collect()),
+                    SupportedMessage::DeleteNodesResponse(r) => Ok(r.results.unwrap_or_default().iter().map(|x| (*x, None)).collect()),
+                    SupportedMessage::DeleteReferencesResponse(r) => Ok(r.results.unwrap_or_default().iter().map(|x| (*x, None)).collect()),
+                    SupportedMessage::ServiceFault(f) => Err(f.response_header.service_result),
+                    _ => Err(StatusCode::BadUnexpectedError),
+                };
+                match results {
+                    Err(st) => {
+                        let v = if before != after {
+                            Verdict::fail("bad_is_noop", &class, format!("service fault {} but the address space changed", status_name(st)))
+                        } else {
+                            Verdict::Ok
+                        };
+                        (format!("fault {} {}", status_name(st), after.render()), v)
+                    }
+                    Ok(rs) => {
+                        let mut v = Verdict::Ok;
+                        if rs.len() != count.unwrap_or(0) {
+                            v = Verdict::fail("one_result_per_item", &class, format!("{} results for {} items", rs.len(), count.unwrap_or(0)));
+                        } else if rs.iter().all(|(st, _)| st.is_bad()) && before != after {
+                            v = Verdict::fail("bad_is_noop", &class, "every item Bad but the address space changed");
+                        }
+                        let mut shown = Vec::new();
+                        let mut seen: Vec<NodeId> = Vec::new();
+                        for (k, (st, id)) in rs.iter().enumerate() {
+                            if *kind == "addnode" {
+                                let id = id.clone().unwrap_or_else(NodeId::null);
+                                if st.is_good() {
+                                    let a = self.space.read();
+                                    let c = chunks[k];
+                                    let parent = self.nid(c[2].parse().unwrap_or(0));
+                                    if pre_existing.contains(&id) || seen.contains(&id) || self.tok(&id).map_or(false, |t| before.nodes.contains(&t)) {
+                                        v = Verdict::fail("assigned_ids_fresh", &class, format!("item {}: Good with an id that was a node already", k));
+                                    } else if !a.node_exists(&id) {
+                                        v = Verdict::fail("add_good_means_present", &class, format!("item {}: Good but no node with the returned id", k));
+                                    } else if !a.node_exists(&parent) || !a.has_reference(&parent, &id, self.opt_id(c[3])) {
+                                        // a later item of the same request may have deleted nothing: adds only
+                                        v = Verdict::fail("parent_link", &class, format!("item {}: the parent does not reference the new node", k));
+                                    }
+                                    seen.push(id.clone());
+                                } else if !id.is_null() {
+                                    v = Verdict::fail("bad_is_noop", &class, format!("item {}: Bad status with a node id", k));
+                                }
+                                shown.push(format!("{}:{}", status_name(*st), if id.is_null() { "-".to_string() } else { self.tok(&id).map_or("?".to_string(), |t| t.to_string()) }));
+                            } else {
+                                shown.push(status_name(*st));
+                            }
+                        }
+                        for id in seen {
+                            self.known.insert(id);
+                        }
+                        (format!("ok [{}] {}", shown.join(","), after.render()), v)
+                    }
+                }
+            }
+            ["fill", a, n] => {
+                // `n` AddNodes items with the requested ids a, a+1, …: occupies a run of ids
+                let (Ok(a), Ok(n)) = (a.parse::<u32>(), n.parse::<u32>()) else { return ("bad-op".into(), Verdict::Ok) };
+                let mut good = 0;
+                let mut verdict = Verdict::Ok;
+                let mut parent = 85u32;
+                for i in 0..n {
+                    let id = self.nid(a + i);
+                    let existed = self.space.read().node_exists(&id);
+                    let name = format!("n{}", a + i);
+                    let item = AddNodesItem {
+                        parent_node_id: ExpandedNodeId::from(self.nid(parent)),
+                        reference_type_id: NodeId::new(0, 35u32),
+                        requested_new_node_id: ExpandedNodeId::from(id.clone()),
+                        browse_name: QualifiedName::new(0, name.as_str()),
+                        node_class: NodeClass::Object,
+                        node_attributes: object_attributes("o"),
+                        type_definition: ExpandedNodeId::from(NodeId::new(0, 58u32)),
+                    };
+                    let resp = self.svc.add_nodes(
+                        self.state.clone(),
+                        self.session.clone(),
+                        self.space.clone(),
+                        &AddNodesRequest { request_header: RequestHeader::dummy(), nodes_to_add: Some(vec![item]) },
+                    );
+                    let SupportedMessage::AddNodesResponse(resp) = resp else {
+                        return ("err service-fault".to_string(), Verdict::fail("response", "fill", "service fault"));
+                    };
+                    let r = &resp.results.as_ref().unwrap()[0];
+                    if r.status_code.is_good() {
+                        good += 1;
+                        if existed || r.added_node_id != id || !self.space.read().node_exists(&id) {
+                            verdict = Verdict::fail("add_good_means_present", "requested-id", format!("fill item {}: Good but not a new node under the requested id", a + i));
+                        }
+                        self.known.insert(r.added_node_id.clone());
+                    }
+                    parent = a + i;
+                }
+                (format!("ok {} {}", good, self.observe().render()), verdict)
+            }
             ["addnode", req, si, parent, rt, name, cls, td, attrs] => {
                 let before = self.observe();
+                // which of the ids handed out so far are nodes right now
+                let pre_existing: std::collections::HashSet<NodeId> = {
+                    let a = self.space.read();
+                    self.known.iter().filter(|k| a.node_exists(k)).cloned().collect()
+                };
                 let cls_n: u32 = cls.parse().unwrap_or(0);
                 let nm = if *name == "-" { None } else { Some(format!("n{}", name)) };
                 let attributes = match (cls_n, *attrs == "1") {
@@ -444,7 +709,7 @@ impl Runner for R {
                     // Good ⇒ a NEW node with the returned id exists …
                     let a = self.space.read();
                     let id = &r.added_node_id;
-                    let existed_before = id_tok.map_or(false, |t| before.nodes.contains(&t));
+                    let existed_before = id_tok.map_or(false, |t| before.nodes.contains(&t)) || pre_existing.contains(id);
                     if existed_before {
                         Verdict::fail("assigned_ids_fresh", class, format!("Good with id {:?} which existed before the request", id_tok))
                     } else if !a.node_exists(id) {
@@ -468,6 +733,9 @@ impl Runner for R {
                 } else {
                     Verdict::Ok
                 };
+                if r.status_code.is_good() {
+                    self.known.insert(r.added_node_id.clone());
+                }
                 let idn = id_tok.map_or("-".to_string(), |t| t.to_string());
                 (format!("ok {} {} {}", status_name(r.status_code), idn, after.render()), verdict)
             }
